@@ -85,7 +85,20 @@ def r1_separator_inclusion(ctx, rule):
                     'records' % '/'.join(sorted(kinds)), facts, fn)
     else:
         ctx.ok(rule, qual, 'reject set contains TAB and every line separator of the readers (%d characters required)' % len(need), facts)
+    r1b_validate_final_value(ctx, rule)
+
+
+def r1b_validate_final_value(ctx, rule):
     # the validated value is the yielded value
+    qual = TFI + 'check_valid'
+    cvf = ctx.fn(qual)
+    pw = params(cvf)[0]
+    empties = [s for s in cvf.body if isinstance(s, ast.If) and U(s.test) in ('len(%s) == 0' % pw, 'not %s' % pw, "%s == ''" % pw)
+               and s.body and isinstance(s.body[-1], ast.Return) and const(s.body[-1].value) is False]
+    if empties:
+        ctx.ok(rule, qual, 'the empty string is rejected')
+    else:
+        ctx.bad(rule, qual, 'empty password accepted', 'the parser cannot tile the empty string (it yields an empty O0 segment)', None, cvf)
     rq = TFI + 'TrainerFileInput.read_password'
     rfn = ctx.fn(rq)
     mod = ctx.repo.modules[rq.partition('::')[0]]
